@@ -21,6 +21,7 @@ OPNAMES = {ast.Add: "+", ast.Sub: "-", ast.Mult: "*", ast.Div: "/", ast.FloorDiv
 CMPNAMES = {ast.Eq: "==", ast.NotEq: "!=", ast.Lt: "<", ast.LtE: "<=", ast.Gt: ">", ast.GtE: ">=", ast.Is: "is", ast.IsNot: "is not",
             ast.In: "in", ast.NotIn: "not in"}
 COMMUTATIVE = {"+", "*", "|", "&", "^"}
+EMPTY_DICTS = (("dict", ()), ("call", "dict", (), ()), ("call", "collections.OrderedDict", (), ()), ("call", "OrderedDict", (), ()))
 MAX_INLINE = 4
 INLINE_MAX_NODES = 260       # AST nodes of a helper that may be inlined
 INLINE_MAX_RESULT = 400      # size of an inlined value
@@ -289,6 +290,13 @@ class Sym:
                         if isinstance(b, ast.AugAssign) and isinstance(b.target, ast.Name) and isinstance(b.op, ast.Add):
                             effects.append(("add", b.target.id, self.expr(b.value, e3, depth), tuple(conds)))
                             continue
+                        if isinstance(b, ast.Assign) and len(b.targets) == 1 and isinstance(b.targets[0], ast.Subscript) \
+                                and isinstance(b.targets[0].value, ast.Name) and b.targets[0].value.id in env \
+                                and env[b.targets[0].value.id] in EMPTY_DICTS and not isinstance(b.targets[0].slice, ast.Slice):
+                            # D[k] = v  into a dictionary that was empty before the loop  ==  {k: v for ...}
+                            kv = ("tuple", (self.expr(b.targets[0].slice, e3, depth), self.expr(b.value, e3, depth)))
+                            effects.append(("setitem", b.targets[0].value.id, kv, tuple(conds)))
+                            continue
                         if isinstance(b, ast.Assign) and all(isinstance(t, ast.Name) for t in b.targets):
                             v = self.expr(b.value, e3, depth)
                             for t in b.targets:
@@ -335,7 +343,11 @@ class Sym:
                 for kind, name, val, conds in effects:
                     if kind == "append":
                         per_list.setdefault(name, []).append((val, conds))
-                if any(len(v) > 1 for v in per_list.values()):
+                per_dict = {}
+                for kind, name, val, conds in effects:
+                    if kind == "setitem":
+                        per_dict.setdefault(name, []).append((val, conds))
+                if any(len(v) > 1 for v in per_list.values()) or any(len(v) > 1 for v in per_dict.values()):
                     simple = False
                 if not simple:
                     # not understood: every name assigned or mutated in the loop becomes opaque
@@ -351,6 +363,9 @@ class Sym:
                         cur = ("list", (("splice", cur),))
                     comp = mkcomp("comp", val, bv, it, conds)
                     env[name] = _norm_list(("list", cur[1] + (("splice", comp),)))
+                for name, (item,) in per_dict.items():
+                    val, conds = item
+                    env[name] = mkcomp("dictcomp", val, bv, it, conds)
                 groups = {}
                 for kind, name, val, conds in effects:
                     if kind == "add":
